@@ -210,5 +210,45 @@ pub fn arb_history(o: HistOpts) -> BoxedStrategy<History> {
         prop_oneof![3 => Just(0u64), 2 => (1u64..=3_000).prop_map(|ms| ms * 1_000_000), 1 => (1u64..=100).prop_map(|s| s * 1_000_000_000)],
         1..6,
     );
-    (arb_cfg(&o), ops, lates).prop_map(|(cfg, ops, lates)| History { cfg, ops, lates }).boxed()
+    // with credentials configured, half of the histories start with a scripted exchange that brings the client
+    // into a deeper credential state (long-term: challenged / authenticated; short-term: algorithm learned)
+    (arb_cfg(&o), ops, lates, 0u8..8, 0u8..6, any::<bool>())
+        .prop_map(|(cfg, mut ops, lates, warm, algs, anon)| {
+            let fp = if cfg.fingerprint { FpMode::Valid } else { FpMode::Absent };
+            let send = Op::Send { method: 1, attrs: vec![], small_buf: false };
+            let reply = |body: Body, auth: Auth| {
+                Op::Deliver(Reply { target: Target::Outstanding(0), body, extra: 1, auth, fp: fp.clone(), dup: false })
+            };
+            let mut pre: Vec<Op> = Vec::new();
+            match (&cfg.mech, warm) {
+                (Mech::LongTerm, 1..=3) if cfg.max_tx > 0 => {
+                    let algs = if algs == 4 { 1 } else { algs };
+                    pre.push(send.clone());
+                    pre.push(Op::Advance(20_000_000));
+                    pre.push(reply(Body::Lt401 { algs, anon, cookie: true, realm: warm, nonce: algs, drop_realm: false, drop_nonce: false }, Auth::None));
+                    if warm >= 2 {
+                        pre.push(send.clone());
+                        pre.push(Op::Advance(20_000_000));
+                        pre.push(reply(Body::Success, Auth::ValidExpected));
+                    }
+                    if warm == 3 {
+                        pre.push(send.clone());
+                        pre.push(Op::Advance(20_000_000));
+                        pre.push(reply(Body::Lt438 { nonce: algs, drop_nonce: false }, Auth::None));
+                    }
+                }
+                (Mech::ShortTerm(None), 1..=2) if cfg.max_tx > 0 => {
+                    pre.push(send.clone());
+                    pre.push(Op::Advance(20_000_000));
+                    pre.push(reply(Body::Success, if warm == 1 { Auth::ValidMi } else { Auth::ValidSha }));
+                }
+                _ => {}
+            }
+            if !pre.is_empty() {
+                pre.append(&mut ops);
+                ops = pre;
+            }
+            History { cfg, ops, lates }
+        })
+        .boxed()
 }
